@@ -139,10 +139,10 @@ PRE = ("From Coq Require Import List ZArith Bool String Ascii.\n"
 def write_cases(dirpath, tag, cases, shard):
     """cases: list of (text, impl result).  Returns list of (path, first, count)."""
     files = []
-    # shards of at most `shard` cases and ~150 kB of script text (a multi-MB literal overflows coqc's stack)
+    # shards of at most `shard` cases and ~60 kB of script text (a multi-MB literal overflows coqc's stack)
     bounds, start, size = [], 0, 0
     for i, (text, _) in enumerate(cases):
-        if i > start and (i - start >= shard or size + len(text) > 150000):
+        if i > start and (i - start >= shard or size + len(text) > 60000):
             bounds.append((start, i))
             start, size = i, 0
         size += len(text)
@@ -276,26 +276,33 @@ def compare_reading(text, script, flags, seed):
     return None if evaluated or not its else {"what": "nothing evaluated", "skip": True}
 
 
+def explain_one(text, script, seed, flag):
+    try:
+        return compare_reading(text, script, (flag,), seed) is None
+    except _Timeout:
+        raise
+    except Exception:  # noqa
+        return False
+
+
 def explain(text, script, seed):
-    """The smallest set of known deviations of pySMT that makes the reference reading agree."""
-    for fl in c08_ref.FLAGS:
+    """The smallest set of known deviations of pySMT that makes the reference reading agree; the
+    pseudo-deviation "non-term-returned" is added when what remains is a non-term argument."""
+    flags = c08_ref.FLAGS[1:]
+    sets = [(f,) for f in flags] + [(a, b) for i, a in enumerate(flags) for b in flags[i + 1:]]
+    nonterm = None
+    for fl in sets:
         try:
-            if compare_reading(text, script, (fl,), seed) is None:
-                return [fl]
+            d = compare_reading(text, script, fl, seed)
         except _Timeout:
             raise
         except Exception:  # noqa
             continue
-    for i, a in enumerate(c08_ref.FLAGS):
-        for b in c08_ref.FLAGS[i + 1:]:
-            try:
-                if compare_reading(text, script, (a, b), seed) is None:
-                    return [a, b]
-            except _Timeout:
-                raise
-            except Exception:  # noqa
-                continue
-    return None
+        if d is None:
+            return list(fl)
+        if d.get("nonterm") and nonterm is None:
+            nonterm = list(fl) + ["non-term-returned"]
+    return nonterm
 
 
 class _Timeout(Exception):
@@ -345,11 +352,18 @@ def _oracle(chk, text, res, tag, stats):
         if len(ex) < 25:
             ex.append(text[:160])
         return
+    if diff.get("reject") == "undeclared" and explain_one(text, res[1], chk.seed, "let-extension-issue159"):
+        ext = stats.setdefault("accepted_outside_standard", {})
+        ext["let-extension-issue159"] = ext.get("let-extension-issue159", 0) + 1
+        return
     if diff.get("nonterm"):
         why, key = ["non-term-returned"], "accepted:non-term-returned"
     else:
         why = explain(text, res[1], chk.seed)
-        key = "misread:" + "+".join(why) if why else "misread-unexplained:" + hashlib.md5(text.encode()).hexdigest()[:12]
+        if why and why[-1] == "non-term-returned":
+            key = "accepted:non-term-returned"
+        else:
+            key = "misread:" + "+".join(why) if why else "misread-unexplained:" + hashlib.md5(text.encode()).hexdigest()[:12]
     stats["differences"] += 1
     stats.setdefault("by_key", {}).setdefault(key, 0)
     stats["by_key"][key] += 1
@@ -400,7 +414,7 @@ def run_corpus(chk, tier):
     for cid, txt in items:
         res = run_impl(txt)
         accepted[cid] = res[0] == "ok"
-        limit = 6000 if tier == "quick" else 60000
+        limit = 6000 if tier == "quick" else 20000      # larger literals overflow coqc's stack
         if len(txt) <= limit and is_ascii(txt) and not any("(" + c in txt for c in OMT):
             small.append((cid, txt, res))
     if base is None:
